@@ -181,6 +181,13 @@ func (r *runner) run() int {
 	}()
 	for _, n := range names {
 		fn := r.prog.Harnesses[n]
+		// wall-clock budget per harness (a change to the code under check can make the path count explode):
+		// what is not explored by then is reported as bound-exceeded, never as held
+		budget := 8 * time.Minute
+		if cfg.Thorough {
+			budget = 75 * time.Minute
+		}
+		cfg.Deadline = time.Now().Add(budget)
 		res := interp.Explore(r.prog, fn, cfg)
 		hs := ev.addHarness(res)
 		fmt.Printf("harness %s: paths=%d completed=%d edges=%d queries=%d (sat %d unsat %d unknown %d) solver=%.1fs wall=%.1fs discharged=%d concrete-true=%d candidates=%d\n",
